@@ -191,6 +191,29 @@ func (gen *Gen) scenarios() []scenario {
 	uexp := deepCopy(u)
 	uexp["servers"].([]interface{})[0].(obj)["listeners"].([]interface{})[2].(obj)["network"] = "udp"
 	out = append(out, scenario{name: "udp-listener", doc: u, expect: uexp})
+	// keys at every typed and untyped position (TLS on, real certificate): what an admin dump has to hide
+	ke := multi()
+	ksrv := ke["servers"].([]interface{})[0].(obj)
+	kl := ksrv["listeners"].([]interface{})
+	kl0 := kl[0].(obj)
+	kfc := kl0["filter_chains"].([]interface{})[0].(obj)
+	kfc["tls_context_set"] = []interface{}{gen.tls(true, "a.example.com"), gen.tls(true, "b.example.com")}
+	kfc["filters"] = append(kfc["filters"].([]interface{}), obj{"type": "verif_tls_array_holder", "config": obj{"upstream": obj{
+		"tls_context_set": []interface{}{gen.tls(false, "u1"), obj{"server_name": "u2", "sds_source": obj{"name": "by-sds"}}}}}})
+	kl0["stream_filters"] = []interface{}{obj{"type": "verif_tls_holder", "config": obj{"upstream": obj{"tls_context": gen.tls(false, "sf")}}}}
+	kl0["listener_filters"] = []interface{}{obj{"type": "verif_lf_holder", "config": obj{"tls_context": gen.tls(false, "lf")}}}
+	kl[1].(obj)["filter_chains"].([]interface{})[0].(obj)["tls_context"] = gen.tls(true, "only.example.com")
+	kcs := ke["cluster_manager"].(obj)["clusters"].([]interface{})
+	kcs[0].(obj)["tls_context"] = gen.tls(false, "up.example.com")
+	ke["cluster_manager"].(obj)["tls_context"] = gen.tls(false, "cm.example.com")
+	ke["extends"] = []interface{}{
+		obj{"type": "tunnel_agent", "config": obj{"enable": false, "cluster": "C1", "hosting_listener": "L1", "tls_context": gen.tls(false, "agent")}},
+		obj{"type": "verif_servers", "config": obj{"servers": []interface{}{obj{"address": "10.0.0.1:443", "tls_context": gen.tls(false, "s1")}, obj{"address": "10.0.0.2:80"}}}}}
+	keexp := deepCopy(ke)
+	efc2 := keexp["servers"].([]interface{})[0].(obj)["listeners"].([]interface{})[1].(obj)["filter_chains"].([]interface{})[0].(obj)
+	efc2["tls_context_set"] = []interface{}{efc2["tls_context"]}
+	delete(efc2, "tls_context")
+	out = append(out, scenario{name: "keys-everywhere", doc: ke, expect: keexp})
 	return out
 }
 
@@ -200,11 +223,14 @@ func runScenarios() {
 	gen.initCert()
 	tr := newTracer(*tracePth)
 	defer tr.Close()
-	for i, sc := range gen.scenarios() {
+	plain := gen.scenarios()
+	all := append(plain, gen.scenarios()...) // every scenario once without and once with admin dumps in between
+	for i, sc := range all {
 		if i < *start {
 			continue
 		}
 		mark(i)
+		withAdmin := i >= len(plain) && !sc.expectRefused
 		dir := freshDir("scenario")
 		doc := sc.doc
 		if sc.prep != nil {
@@ -219,7 +245,7 @@ func runScenarios() {
 		if sc.yaml {
 			format = "yaml"
 		}
-		ev := vh.Ev{"ev": "case", "id": i, "t": "scenario", "name": sc.name, "a": map[string]string{}, "fmt": format}
+		ev := vh.Ev{"ev": "case", "id": i, "t": "scenario", "name": sc.name, "a": map[string]string{}, "fmt": format, "admin": withAdmin}
 		if sc.expectRefused {
 			ev["expect_refused"] = true
 		}
@@ -265,7 +291,9 @@ func runScenarios() {
 		}
 		wd, _ := os.Getwd()
 		os.Chdir(dir)
+		adminBetween = withAdmin
 		cycleLoadEv(tr, path, obsFn, sc.expectRefused)
+		adminBetween = false
 		os.Chdir(wd)
 	}
 	mark(-1)
